@@ -328,6 +328,9 @@ func (c *CEnv) quant(e *CExpr) *Val {
 		if !ok {
 			cfail("unknown type %s of bound variable %s", v.Type, v.Name)
 		}
+		if _, isStruct := ty.Underlying().(*types.Struct); isStruct {
+			ty = types.NewPointer(ty) // a bare struct type name ranges over references to it
+		}
 		s, ok := c.w().SortOf(ty)
 		if !ok {
 			cfail("unsupported type %s of bound variable %s", v.Type, v.Name)
